@@ -39,8 +39,8 @@ def boundary_variants(x):
 
 def run(tier):
     chk = Check('C02', tier)
-    if not chk.prove():
-        chk.violation('proof obligations of props/C02.v no longer check', chk.broken_summary(), found_input=False)
+    asmcheck.prove_codec(chk)
+    ntie = asmcheck.codec_tie(chk)
     ctx = asmcheck.Ctx(chk, tier)
     bad = {}
     def note(key, case, detail): bad.setdefault(key, []).append((case, detail))
@@ -95,6 +95,7 @@ def run(tier):
                     note(asmcheck.klass('cand:S2-%s:value-does-not-fit' % kind, x), c, 'candidate %s = %r returned for %r although the value %d does not fit the form (GNU as: %s)' % (c, rf[1], text, v, g[1][:100]))
     chk.cov['evaluations'] = len(lines) + ncand; chk.cov['lines'] = len(lines); chk.cov['accepted_lines'] = nacc; chk.cov['candidates_checked'] = ncand; chk.cov['distinct_candidates'] = len(cset)
     chk.cov['distinct_nontrivial'] = nacc; chk.cov['traces_validated_against_impl'] = len(lines)
+    chk.cov['codec_correspondence_cases'] = ntie
     asmcheck.report(chk, bad)
     chk.cov['rule'] = ('S1: Intel and AT&T renderings of the usable base strings (see C03); S2: one base string per (mnemonic, feature) class with its immediate / displacement replaced by '
                        '-129,-128,-1,0,1,127,128,255,256,32767,32768,65535,2^31-1,2^31,2^32-1. Every candidate of every accepted line is decoded by GNU objdump: one instruction of the full length, '
